@@ -112,10 +112,16 @@ class YieldInjector(object):
       mon.use_tool_id(self.tool, 'vf-c10')
     except ValueError:
       pass
-    for obj in (transpiler.PyToPy.transform_function, transpiler.PyToPy._cached_factory,
-                cache._TransformedFnCache.has, cache._TransformedFnCache.__getitem__,
-                transpiler._PythonFnFactory.instantiate):
-      self.codes.append(obj.__code__)
+    # every function and method defined in the two modules that hold the cache logic, whatever they are called
+    import types
+    for mod in (transpiler, cache):
+      for obj in list(vars(mod).values()):
+        members = [obj] if isinstance(obj, types.FunctionType) else (
+            list(vars(obj).values()) if isinstance(obj, type) and obj.__module__ == mod.__name__ else [])
+        for f in members:
+          f = getattr(f, '__func__', f)
+          if isinstance(f, types.FunctionType) and f.__module__ == mod.__name__ and f.__code__ not in self.codes:
+            self.codes.append(f.__code__)
     lock = threading.Lock()
 
     def cb(code, line):
@@ -326,7 +332,7 @@ def history(cid, seed, nthreads, nreq, switch, inject):
     old = sys.getswitchinterval()
     sys.setswitchinterval(switch)
     tr_ = api._TRANSPILER
-    real_cf = type(tr_)._cached_factory
+    real_cf = getattr(type(tr_), '_cached_factory', None)     # diagnostics only; absent in other layouts of the cache code
     diag = []
 
     def cf(self_, fn, subkey):
@@ -340,7 +346,7 @@ def history(cid, seed, nthreads, nreq, switch, inject):
             sum(1 for r in list(c.data) if r() is fn.__code__)))
         raise
 
-    if os.environ.get('VERIF_C10_DIAG'):
+    if os.environ.get('VERIF_C10_DIAG') and real_cf is not None:
       type(tr_)._cached_factory = cf
     with TransformCounter() as tc, stream.FallbackCatcher() as fbc, OPS:
       inj = YieldInjector(random.Random(seed + 'inj'), 0.25) if inject else None
@@ -377,7 +383,8 @@ def history(cid, seed, nthreads, nreq, switch, inject):
         if 'e1' in rec_ or '.eph' in rec_ or '<function e' in rec_:
           continue   # the ephemeral exec-defined functions have no source on purpose
         probs.append('conversion failed inside the call wrapper and fell back: %s' % rec_.replace('\n', ' | ')[:400])
-      type(tr_)._cached_factory = real_cf
+      if real_cf is not None:
+        type(tr_)._cached_factory = real_cf
       probs.extend(diag[:2])
       pool_codes = {id(f.__code__) for _, f in pool}
       worst = 0
@@ -473,7 +480,7 @@ def run_slice(spec):
     nthreads = rng.choice([1, 2, 3, 4, 8, 16, 32])
     nreq = max(6, 240 // nthreads)
     switch = rng.choice([5e-3, 1e-4, 1e-6])
-    inject = spec['tier'] == 'thorough' and rng.random() < 0.5
+    inject = rng.random() < 0.5
     out = judge(cid, cid, nthreads, nreq, switch, inject)
     order = out.pop('order', None)
     mx = out.pop('max_transforms_per_key', 0)
@@ -495,6 +502,6 @@ def replay(w):
 def conclusive(cov, tier):
   if cov.get('requests_judged', 0) < 1000:
     return 'only %d requests judged' % cov.get('requests_judged', 0)
-  if tier == 'thorough' and cov.get('yields_injected', 0) == 0:
+  if cov.get('yields_injected', 0) == 0:
     return 'yield injection never fired'
   return None
